@@ -61,7 +61,7 @@ def _limits(mem_gb):
     return f
 
 
-def run_kani(scratch, harnesses, jobs, timeout_s, mem_gb, extra, tag):
+def run_kani(scratch, harnesses, jobs, timeout_s, mem_gb, extra, tag, cfgs=()):
     """One cargo-kani invocation for a set of harnesses. Returns (json or None, text log, wall)."""
     out_json = os.path.join(scratch, f"result-{tag}.json")
     cmd = list(KANI_BASE)
@@ -72,7 +72,7 @@ def run_kani(scratch, harnesses, jobs, timeout_s, mem_gb, extra, tag):
             "--target-dir", os.path.join(scratch, "target")]
     cmd += extra
     env = dict(os.environ)
-    env.update({"CARGO_NET_OFFLINE": "true", "RUSTFLAGS": "--cap-lints=allow",
+    env.update({"CARGO_NET_OFFLINE": "true", "RUSTFLAGS": " ".join(["--cap-lints=allow"] + [f"--cfg {c}" for c in cfgs]),
                 "CARGO_TERM_COLOR": "never"})
     env.pop("RUSTUP_TOOLCHAIN", None)
     t0 = time.time()
@@ -209,7 +209,8 @@ def main(argv):
             log(f"[{pid}] group {gi + 1}/{len(groups)}: {len(harnesses)} harness(es), tier={args.tier}, "
                 f"timeout={timeout_s}s/harness, jobs={jobs}")
             qualified = [qualify(g["mounts"], h) for h in harnesses]
-            data, text, wall, rc = run_kani(scratch, qualified, jobs, timeout_s, g.get("mem_gb", 20), extra, f"g{gi}")
+            data, text, wall, rc = run_kani(scratch, qualified, jobs, timeout_s, g.get("mem_gb", 20), extra, f"g{gi}",
+                                              cfgs=g.get("cfgs", ()))
             res = analyse(data, text, harnesses)
             v = sat_size(text)
             if v[0] > max_sat[0]:
@@ -237,7 +238,7 @@ def main(argv):
                 unexplained = [f for f in r["failed"]
                                if not any(k["harness"] == h and k["check"] in f["description"] for k in known)]
                 if unexplained and g.get("playback", True):
-                    r["playback"] = extract_playback(scratch, r["id"], extra, timeout_s, g.get("mem_gb", 20))
+                    r["playback"] = extract_playback(scratch, r["id"], extra, timeout_s, g.get("mem_gb", 20), cfgs=g.get("cfgs", ()))
         finally:
             if not args.keep:
                 shutil.rmtree(scratch, ignore_errors=True)
@@ -255,6 +256,16 @@ def main(argv):
         if not r["failed"]:
             inconclusive.append(f"{h}: status={r['status']} without failed checks (timeout/OOM/crash)")
             continue
+        # An unwinding assertion says "this loop can run longer than the harness bound". Unless termination is what the
+        # property is about (cfg unwind_is_property), that is a bound of the harness that was too small for this tree -
+        # inconclusive, never a verdict.
+        if not cfg.get("unwind_is_property"):
+            unw = [f for f in r["failed"] if "unwinding assertion" in f["description"]]
+            if unw:
+                inconclusive.append(f"{h}: loop bound of the harness exceeded ({unw[0]['description']} @ {unw[0]['where']})")
+                r["failed"] = [f for f in r["failed"] if f not in unw]
+                if not r["failed"]:
+                    continue
         for f in r["failed"]:
             hit = None
             for k in known:
@@ -316,7 +327,7 @@ def main(argv):
     return rc
 
 
-def extract_playback(scratch, harness, extra, timeout_s, mem_gb):
+def extract_playback(scratch, harness, extra, timeout_s, mem_gb, cfgs=()):
     """Ask Kani for the concrete assignment of a failed harness (`--concrete-playback=print`)."""
     cmd = [c for c in KANI_BASE if c != "terse"]
     cmd = cmd[:-1] if cmd[-1] == "--output-format" else cmd
@@ -324,7 +335,8 @@ def extract_playback(scratch, harness, extra, timeout_s, mem_gb):
     cmd += ["--harness", harness, "--exact", "-Z", "concrete-playback", "--concrete-playback=print",
             "--target-dir", os.path.join(scratch, "target")] + extra
     env = dict(os.environ)
-    env.update({"CARGO_NET_OFFLINE": "true", "RUSTFLAGS": "--cap-lints=allow", "CARGO_TERM_COLOR": "never"})
+    env.update({"CARGO_NET_OFFLINE": "true", "RUSTFLAGS": " ".join(["--cap-lints=allow"] + [f"--cfg {c}" for c in cfgs]),
+                "CARGO_TERM_COLOR": "never"})
     try:
         p = subprocess.run(cmd, cwd=scratch, env=env, capture_output=True, text=True,
                            timeout=timeout_s + 600, preexec_fn=_limits(mem_gb))
